@@ -29,10 +29,11 @@ class UartFlushMonitor:
         most one per 2^k cycles;
       - software is never blocked by a dead PHY: while source.ready stays low, txfull does not stay high for more than
         timeout + 2^k + 2 cycles;
-      - `strict`: a character is handed to the PHY (source.valid & source.ready) at most once.  The unchanged code
-        violates this in the cycle in which the PHY recovers (see `dups`), therefore strict is off in the jobs."""
+      - a character handed to the PHY (source.valid & source.ready) leaves the FIFO in that cycle: it is sent exactly once
+        (before fix `C19-uart-autoflush-duplicate` the flush branch ignored source.ready and the character was sent
+        twice when the PHY recovered in a cycle with flush_count != 0)."""
 
-    def __init__(self, dtx, drx, rx_we, timeout, k, strict=False):
+    def __init__(self, dtx, drx, rx_we, timeout, k, strict=True):
         self.dtx, self.drx, self.rx_we, self.T, self.P = dtx, drx, rx_we, timeout, 1 << k
         self.txq, self.rxq = [], []
         self.streak = 0          # consecutive cycles (before this one) without source.ready
@@ -49,7 +50,7 @@ class UartFlushMonitor:
         srcv, srcd, srdy, w, txfull, txempty, rxempty, rxfull, ttx, trx = outs
         msg = None
         flushing = self.streak >= self.T
-        pop = (self.t % self.P == 0) if flushing else bool(rdy)
+        pop = bool(rdy) or (flushing and self.t % self.P == 0)
         if ttx != 1 - txfull or trx != 1 - rxempty:
             msg = "event triggers (tx=%d, rx=%d) do not mirror txfull=%d / rxempty=%d" % (ttx, trx, txfull, rxempty)
         elif txempty != 1 - srcv:
@@ -57,8 +58,12 @@ class UartFlushMonitor:
         elif rxfull != 1 - srdy:
             msg = "rxfull=%d while sink.ready=%d" % (rxfull, srdy)
         elif srcv and (not self.txq or self.txq[0] != srcd):
-            msg = "PHY offered 0x%02x, oldest pending character is %s (flush mode: %s)" % (
-                srcd, "0x%02x" % self.txq[0] if self.txq else "none", flushing)
+            if getattr(self, "taken_prev", None) == srcd:
+                msg = ("character 0x%02x was taken by the PHY (source.valid & source.ready) in the previous cycle and is "
+                       "offered again: it stayed in the TX FIFO and is sent twice" % srcd)
+            else:
+                msg = "PHY offered 0x%02x, oldest pending character is %s (flush mode: %s)" % (
+                    srcd, "0x%02x" % self.txq[0] if self.txq else "none", flushing)
         elif not rxempty and (not self.rxq or self.rxq[0] != w):
             msg = "rxtx shows 0x%02x, PHY delivered %s" % (w, "0x%02x" % self.rxq[0] if self.rxq else "nothing")
         elif len(self.txq) > self.dtx + 1 or len(self.rxq) > self.drx + 1:
@@ -71,6 +76,7 @@ class UartFlushMonitor:
         self.rx_wait = self.rx_wait + 1 if (self.rxq and rxempty) else 0
         if msg is None and (self.tx_wait > 3 or self.rx_wait > 3):
             msg = "a queued character did not surface within 3 cycles"
+        self.taken_prev = srcd if (srcv and rdy) else None
         if srcv and rdy:
             self.delivered.append(srcd)
             if not pop:
@@ -100,7 +106,7 @@ class UartFlushInst:
        outputs = (source.valid, source.data, sink.ready, rxtx.w, txfull, txempty, rxempty, rxfull, ev.tx.trigger,
                   ev.rx.trigger)"""
 
-    def __init__(self, dtx, drx, sys_clk_freq, timeout, interval, rx_we=False, alphabet=None, strict=False, p_dead=0.3):
+    def __init__(self, dtx, drx, sys_clk_freq, timeout, interval, rx_we=False, alphabet=None, strict=True, p_dead=0.3):
         from litex.soc.cores.uart import UART
         core = UART(phy=None, tx_fifo_depth=dtx, rx_fifo_depth=drx, rx_fifo_rx_we=rx_we)
         core.add_auto_tx_flush(sys_clk_freq, timeout=timeout, interval=interval)
@@ -147,15 +153,16 @@ class UartFlushInst:
                 1 if rng.random() < 0.3 else 0, 1 if rng.random() < 0.3 else 0, rng.getrandbits(8), rdy)
 
 
-def mk_uart_flush(dtx=2, drx=2, cycles=4, interval=2, rx_we=False, alphabet=None, strict=False):
+def mk_uart_flush(dtx=2, drx=2, cycles=4, interval=2, rx_we=False, alphabet=None, strict=True):
     """timeout = `cycles` clock cycles (sys_clk_freq = 1 kHz, timeout = cycles ms)."""
     return UartFlushInst(dtx, drx, 1000, cycles * 1e-3 + 1e-4, interval, rx_we=rx_we, alphabet=alphabet, strict=strict)
 
 
 def flush_dup_witness():
-    """Replays the duplicate-character witness on the real code with the strict monitor: returns (cycle, message) or
-    None.  timeout 3 cycles, interval 4: write 0x41, 0x42; PHY dead for 4 cycles; PHY ready in a cycle with
-    flush_count != 0 -> 0x41 is taken by the PHY but stays in the FIFO and is offered (and taken) again."""
+    """Replays the duplicate-character witness (finding C19-uart-autoflush-duplicate) on the real code with the monitor:
+    returns ((cycle, message) or None, trace).  timeout 3 cycles, interval 4: write 0x41, 0x42; PHY dead for 3 more
+    cycles; PHY ready in a cycle with flush_count != 0.  Before the fix the character taken by the PHY stayed in the FIFO
+    and was offered (and taken) again."""
     import explore
     inst = mk_uart_flush(2, 2, cycles=3, interval=4, strict=True)
     w = lambda d: (1, d, 0, 0, 0, 0, 0)
